@@ -134,7 +134,12 @@ class StartupRun:
                 elif k == "publishFactory":
                     desc = f"fd{a['fid']}" if a["fid"] % 3 == 0 else None
                     tys = [a["ty"]] + ([a["ty2"]] if "ty2" in a else [])
-                    if a.get("slow"):
+                    if a.get("fails") is not None:
+                        def failing_factory(e: int = a["fails"]) -> Gen:
+                            raise EXN[e]()      # (EXN[1] is a LookupError)
+
+                        add_resource_factory(failing_factory, a["name"], types=[TYPES[t] for t in tys], description=desc)
+                    elif a.get("slow"):
                         async def slow_factory(fid: int = a["fid"], d: int = a["slow"], ff: int = a.get("failFirst", 0)) -> Gen:
                             n = self.fac_calls[fid] = self.fac_calls.get(fid, 0) + 1
                             await anyio.sleep(d * TICK)       # an asynchronous factory that takes its time
@@ -178,6 +183,15 @@ class StartupRun:
                 elif k == "awaitOpt":
                     v = await get_resource(TYPES[a["ty"]], a["name"], optional=True)
                     self.log("gotOpt", i, a["ty"], a["name"], val_str(v))
+                elif k == "awaitFail":
+                    # waits for a resource whose factory, registered meanwhile, fails: the error is this component's
+                    try:
+                        v = await get_resource(TYPES[a["ty"]], a["name"])
+                        self.probe_failed(i, f"the failing factory behind ({a['ty']}, {a['name']!r}) produced {val_str(v)}", "C07,C04")
+                    except EXN[a["e"]]:
+                        self.log("tick", i)
+                        self.log("failed", i, a["e"])
+                        raise
                 elif k == "awaitGiveUp":
                     # a lookup with a time limit of its own, which strikes while the factory is still running
                     with anyio.move_on_after(a["g"] * TICK) as scope:
@@ -438,6 +452,8 @@ def expand_prog(prog: list[dict[str, Any]], for_model: bool = False) -> list[dic
                         acts += [{"a": "tick", "d": a["d"]}, {"a": "regTd", "id": a["id"]}]
                     elif for_model and a["a"] == "tick" and not isinstance(a["d"], int):
                         acts.append({**a, "d": int(a["d"]) + 1})      # half ticks: the model has whole ones only
+                    elif for_model and a["a"] == "awaitFail":
+                        acts += [{"a": "tick", "d": 1}, {"a": "fail", "e": a["e"]}]
                     elif for_model and a["a"] in ("awaitGiveUp", "awaitCatch"):
                         # a lookup that comes to nothing: for the start-up discipline, time passing in that component
                         acts.append({"a": "tick", "d": 1})
@@ -504,6 +520,15 @@ class RefRun:
                 if key in self.table:
                     await self.generate(key)
                 self.log("gotOpt", i, a["ty"], a["name"], self.table.get(key))
+            elif k == "awaitFail":
+                key = (a["ty"], a["name"])
+                while key not in self.table:
+                    await self.events.setdefault(key, anyio.Event()).wait()
+                self.log("tick", i)
+                self.log("failed", i, a["e"])
+                self.failure = {"k": "cse", "phase": "preparing" if which == "prep" else "starting", "i": i,
+                                "cls": i, "cause": a["e"]}
+                raise RuntimeError("component failure")
             elif k == "awaitGiveUp":
                 with anyio.move_on_after(a["g"] * TICK):
                     await self.generate((a["ty"], a["name"]))
